@@ -22,6 +22,7 @@ mod hash;
 mod kdf;
 mod macs;
 mod stream;
+mod victim;
 
 pub type Ev = Map<String, Value>;
 
@@ -161,6 +162,9 @@ pub fn set_out(e: &mut Value, o: Out) {
 
 fn main() {
     let args: Vec<String> = std::env::args().collect();
+    if args.len() > 1 && args[1] == "--victim" {
+        std::process::exit(victim::main(&args[2..]));
+    }
     if args.len() < 3 {
         eprintln!("usage: drive <script.ndjson> <trace.ndjson> [first_line]");
         std::process::exit(2);
